@@ -3,7 +3,7 @@
 
    fromstr <text>            -> ok <fmtstr> | E:<kind>          FmtStr.from_str
    fmtstr <text> [<atts>]    -> ok <fmtstr> | E:<kind>          fmtstr(s, **atts)
-   peel <text>               -> ok <front> <token> <rest>       peel_off_esc_code
+   peel <text>               -> ok <front> <token> <rest> | E:<kind>   peel_off_esc_code
         token = N | <csi>|<numbers>|<intermed>|<command cp>|<seq>   numbers = - (absent) | r<text> | i<n,n,..>
         (stand-alone empty texts are written "e")
    parse <text>              -> ok <items> | E:<kind>           parse: items joined by ';' (- = none):
@@ -15,8 +15,12 @@
 import Curtsies.Wire
 import Curtsies.Model.EscParse
 import Curtsies.Spec.EscScan
+import Curtsies.Generated.EscParse
 namespace Curtsies.Driver
 open Curtsies Curtsies.Wire
+
+/-- CPython's int(str) digit limit, from the live interpreter -/
+def md : Nat := Generated.intMaxStrDigits
 
 def encTF (t : Text) : String := if t.isEmpty then "e" else encText t
 
@@ -47,15 +51,16 @@ def encItems (l : List Item) : String := if l.isEmpty then "-" else ";".intercal
 
 def escOps (args : List String) : Option String :=
   match args with
-  | ["fromstr", t] => do pure (encExcept encFmt (fromStr (← decText t)))
-  | ["fmtstr", t] => do pure (encExcept encFmt (fmtstrOf (← decText t) {}))
-  | ["fmtstr", t, a] => do pure (encExcept encFmt (fmtstrOf (← decText t) (← decAtts a)))
+  | ["fromstr", t] => do pure (encExcept encFmt (fromStr md (← decText t)))
+  | ["fmtstr", t] => do pure (encExcept encFmt (fmtstrOf md (← decText t) {}))
+  | ["fmtstr", t, a] => do pure (encExcept encFmt (fmtstrOf md (← decText t) (← decAtts a)))
   | ["peel", t] => do
-    let (f, tok, r) := peel (← decText t)
-    pure ("ok " ++ encTF f ++ " " ++ encToken tok ++ " " ++ encTF r)
-  | ["parse", t] => do pure (encExcept encItems (parse (← decText t)))
+    match peel md (← decText t) with
+    | .ok (f, tok, r) => pure ("ok " ++ encTF f ++ " " ++ encToken tok ++ " " ++ encTF r)
+    | .error e => pure ("E:" ++ e.name)
+  | ["parse", t] => do pure (encExcept encItems (parse md (← decText t)))
   | ["removeansi", t] => do pure ("ok " ++ encTF (removeAnsi (← decText t)))
-  | ["roundtrip", f] => do pure (encExcept encFmt (fromStr (render (← decFmt f))))
+  | ["roundtrip", f] => do pure (encExcept encFmt (fromStr md (render (← decFmt f))))
   | ["escscan", t] => do
     pure ("ok m" ++ String.join ((Spec.marks (← decText t)).map fun b => if b then "1" else "0"))
   | _ => none
